@@ -90,8 +90,10 @@ int pipe_read(int pipe, uint8_t *buffer, size_t size)
 
   int r = (int) read(pipe, buffer, size);
 
-  if (r == 0) {
-    // `read` returns 0 to indicate the other end of the pipe was closed.
+  if (r == 0 && size > 0) {
+    // `read` returns 0 to indicate the other end of the pipe was closed. With
+    // an empty buffer it returns 0 regardless, which says nothing about the
+    // other end.
     return -EPIPE;
   }
 
